@@ -2,12 +2,13 @@ package chk
 
 import (
 	"fmt"
-	"os"
-	"strconv"
 	"go/constant"
 	"go/token"
 	"go/types"
+	"hash/fnv"
+	"os"
 	"sort"
+	"strconv"
 	"strings"
 
 	"golang.org/x/tools/go/ssa"
@@ -110,9 +111,35 @@ type Termer struct {
 	depth  int
 	P      *Program
 	Custom func(v ssa.Value, ps *pathState) (string, bool)
+	memo   map[ssa.Value]string // within one top-level Term call (the path state does not change meanwhile)
 }
 
+// Term names v on the path ps. Shared sub-expressions are named once per call, and a name that grows beyond
+// maxTermLen is replaced by a digest of itself (the generated parser's value stack otherwise produces names that
+// double in size at every step).
+const maxTermLen = 1200
+
 func (t *Termer) Term(v ssa.Value, ps *pathState) string {
+	if t.depth == 0 {
+		t.memo = map[ssa.Value]string{}
+		defer func() { t.memo = nil }()
+	}
+	if s, ok := t.memo[v]; ok {
+		return s
+	}
+	s := t.term(v, ps)
+	if len(s) > maxTermLen {
+		h := fnv.New64a()
+		h.Write([]byte(s))
+		s = fmt.Sprintf("?big:%x", h.Sum64())
+	}
+	if t.memo != nil {
+		t.memo[v] = s
+	}
+	return s
+}
+
+func (t *Termer) term(v ssa.Value, ps *pathState) string {
 	t.depth++
 	defer func() { t.depth-- }()
 	if t.depth > 200 {
@@ -141,6 +168,11 @@ func (t *Termer) Term(v ssa.Value, ps *pathState) string {
 	case *ssa.Parameter:
 		return "p:" + x.Name()
 	case *ssa.FreeVar:
+		if ps != nil {
+			if b, ok := ps.BindFV[x]; ok {
+				return t.Term(b, ps)
+			}
+		}
 		return "fv:" + x.Name()
 	case *ssa.Global:
 		return "g:" + x.Name()
@@ -157,6 +189,17 @@ func (t *Termer) Term(v ssa.Value, ps *pathState) string {
 			if prm, ok := st.Val.(*ssa.Parameter); ok && ps != nil {
 				if b, ok := ps.Bind[prm]; ok {
 					return t.Term(b, ps)
+				}
+			}
+			// a local holding the struct an inlined helper returned is named after what the helper returned
+			// (`o, err := db.findObject(…)` where the helper returns its range copy of master[i])
+			if ps != nil && len(ps.Ret) > 0 {
+				if rv := ps.Resolve(st.Val); rv != st.Val {
+					if u, ok := rv.(*ssa.UnOp); ok && u.Op == token.MUL {
+						if s2 := t.Term(rv, ps); !strings.HasPrefix(s2, "*") {
+							return s2
+						}
+					}
 				}
 			}
 			if u, ok := st.Val.(*ssa.UnOp); ok && u.Op == token.MUL {
@@ -225,9 +268,15 @@ func (t *Termer) Term(v ssa.Value, ps *pathState) string {
 			return b.Name() + "(" + strings.Join(args, ",") + ")"
 		}
 		name := calleeName(t.P, x)
+		nameOf := func(c2 *ssa.Call) string { return calleeName(t.P, c2) }
+		if m, _ := devirt(t.P, x, ps); m != nil {
+			// rare: only then are the sibling calls named through the path state as well
+			name = t.P.FnKey(m)
+			nameOf = func(c2 *ssa.Call) string { return calleeNamePS(t.P, c2, ps) }
+		}
 		ord := 0
 		for _, cs := range callsIn(x.Parent()) {
-			if c2, ok := cs.(*ssa.Call); ok && calleeName(t.P, c2) == name {
+			if c2, ok := cs.(*ssa.Call); ok && nameOf(c2) == name {
 				ord++
 				if c2 == x {
 					break
@@ -505,9 +554,59 @@ func EnumLits(start *ssa.BasicBlock, idx int, o TabOpts) ([]*LPath, bool) {
 				out = append(out, &LPath{Lits: fr.lits, Unknown: fr.unknown, Events: fr.events, Stop: in, PS: ps})
 				return
 			}
+			if ld, ok := in.(*ssa.UnOp); ok && ld.Op == token.MUL {
+				var a *ssa.Alloc
+				switch x := ld.X.(type) {
+				case *ssa.Alloc:
+					a = x
+				case *ssa.FreeVar:
+					a, _ = ps.BindFV[x].(*ssa.Alloc)
+				}
+				if a != nil {
+					if cur, stored := ps.Cells[a]; stored {
+						if ps.Loaded == nil {
+							ps.Loaded = map[*ssa.UnOp]ssa.Value{}
+						}
+						ps.Loaded[ld] = cur
+					}
+				}
+			}
 			if s, ok := in.(*ssa.Store); ok {
 				if a, ok := s.Addr.(*ssa.Alloc); ok {
 					ps.Cells[a] = s.Val
+				} else if fv, ok := s.Addr.(*ssa.FreeVar); ok {
+					if a, ok := ps.BindFV[fv].(*ssa.Alloc); ok {
+						ps.Cells[a] = s.Val
+					}
+				}
+			}
+			// a function literal handed to an inlined helper and called there through the helper's parameter is walked
+			// in place as well (transaction wrappers: `withSchema(table, func(s) error {…})`)
+			if call, ok := in.(*ssa.Call); ok && !o.NoInline && len(ps.Stack) > 0 && len(ps.Stack) < maxInlineDepth && call.Common().StaticCallee() == nil && !call.Common().IsInvoke() {
+				if mc, ok := ps.Resolve(call.Common().Value).(*ssa.MakeClosure); ok {
+					if f, ok := mc.Fn.(*ssa.Function); ok && len(f.Blocks) > 0 && len(call.Common().Args) == len(f.Params) && !onStackFn(ps, f) {
+						if ps.Bind == nil {
+							ps.Bind = map[*ssa.Parameter]ssa.Value{}
+						}
+						if ps.BindFV == nil {
+							ps.BindFV = map[*ssa.FreeVar]ssa.Value{}
+						}
+						for k, a := range call.Common().Args {
+							ps.Bind[f.Params[k]] = ps.Resolve(a)
+						}
+						for k, fv := range f.FreeVars {
+							if k < len(mc.Bindings) {
+								ps.BindFV[fv] = mc.Bindings[k]
+							}
+						}
+						for _, fb := range f.Blocks {
+							delete(ps.Visits, fb)
+							delete(ps.Havoc, fb)
+						}
+						ps.Stack = append(ps.Stack, inlFrame{call: call, block: b, idx: i, fn: f})
+						walk(f.Blocks[0], 0, ps, fr, true)
+						return
+					}
 				}
 			}
 			if call, ok := in.(*ssa.Call); ok && !o.NoInline && inlinable != nil && len(ps.Stack) < maxInlineDepth {
@@ -527,7 +626,7 @@ func EnumLits(start *ssa.BasicBlock, idx int, o TabOpts) ([]*LPath, bool) {
 						delete(ps.Visits, fb)
 						delete(ps.Havoc, fb)
 					}
-					ps.Stack = append(ps.Stack, inlFrame{call: call, block: b, idx: i})
+					ps.Stack = append(ps.Stack, inlFrame{call: call, block: b, idx: i, fn: f})
 					walk(f.Blocks[0], 0, ps, fr, true)
 					return
 				}
@@ -541,7 +640,7 @@ func EnumLits(start *ssa.BasicBlock, idx int, o TabOpts) ([]*LPath, bool) {
 			if r, ok := in.(*ssa.Return); ok {
 				if k := len(ps.Stack); k > 0 {
 					top := ps.Stack[k-1]
-					ps.Stack = ps.Stack[:k-1:k-1]
+					ps.Stack = ps.Stack[: k-1 : k-1]
 					rs := make([]ssa.Value, len(r.Results))
 					for j, rv := range r.Results {
 						rs[j] = ps.Resolve(rv)
@@ -676,9 +775,35 @@ func splittableBoolResult(r *ssa.Return, ps *pathState) (int, ssa.Value) {
 	return -1, nil
 }
 
-func onStack(ps *pathState, f *ssa.Function) bool {
+// devirt: an interface method called on a value whose concrete type is known on this path (an inlined helper taking
+// an io.Reader that is handed an *os.File) resolves to the concrete method; recv is the concrete receiver.
+func devirt(p *Program, x ssa.CallInstruction, ps *pathState) (*ssa.Function, ssa.Value) {
+	if p == nil || ps == nil || !x.Common().IsInvoke() || len(ps.Bind) == 0 {
+		return nil, nil
+	}
+	mi, ok := ps.Resolve(x.Common().Value).(*ssa.MakeInterface)
+	if !ok {
+		return nil, nil
+	}
+	sel := p.SSA.MethodSets.MethodSet(mi.X.Type()).Lookup(x.Common().Method.Pkg(), x.Common().Method.Name())
+	if sel == nil {
+		return nil, nil
+	}
+	return p.SSA.MethodValue(sel), mi.X
+}
+
+func calleeNamePS(p *Program, x ssa.CallInstruction, ps *pathState) string {
+	if m, _ := devirt(p, x, ps); m != nil {
+		return p.FnKey(m)
+	}
+	return calleeName(p, x)
+}
+
+func onStack(ps *pathState, f *ssa.Function) bool { return onStackFn(ps, f) }
+
+func onStackFn(ps *pathState, f *ssa.Function) bool {
 	for _, fr := range ps.Stack {
-		if fr.call.Common().StaticCallee() == f {
+		if fr.fn == f {
 			return true
 		}
 	}
@@ -704,6 +829,14 @@ func callEventsT(p *Program, t *Termer) func(in ssa.Instruction, ps *pathState) 
 				kind = "defer"
 			}
 			ev := Event{Kind: kind, Name: calleeName(p, x)}
+			if m, recv := devirt(p, x, ps); m != nil {
+				ev.Name = p.FnKey(m)
+				ev.Args = append(ev.Args, t.Term(recv, ps))
+				for _, a := range x.Common().Args {
+					ev.Args = append(ev.Args, t.Term(a, ps))
+				}
+				return ev, true
+			}
 			if x.Common().IsInvoke() {
 				ev.Args = append(ev.Args, t.Term(x.Common().Value, ps))
 			}
@@ -803,6 +936,20 @@ func foldCond(c ssa.Value, ps *pathState) (bool, bool) {
 	if _, isCmp := negOp[b.Op]; !isCmp {
 		return false, false
 	}
+	// an error value that is certainly not nil — a package-level sentinel (never reassigned: GLOB-1) or a freshly
+	// constructed error — compared with nil. Arises when an inlined helper returns `ErrX` and the caller tests it.
+	if b.Op == token.EQL || b.Op == token.NEQ {
+		x, y := ps.Resolve(b.X), ps.Resolve(b.Y)
+		if isNilConst(x) {
+			x, y = y, x
+		}
+		if isNilConst(y) && isErrorType(x.Type()) && certainlyNonNilError(x) {
+			return b.Op == token.NEQ, true
+		}
+		if isNilConst(x) && isNilConst(y) {
+			return b.Op == token.EQL, true // an inlined helper returned a literal nil
+		}
+	}
 	x, ok1 := evalInt(b.X, ps)
 	y, ok2 := evalInt(b.Y, ps)
 	if !ok1 || !ok2 {
@@ -811,4 +958,30 @@ func foldCond(c ssa.Value, ps *pathState) (bool, bool) {
 	return evalCmp(x, b.Op, y), true
 }
 
-func CallEvents(p *Program) func(in ssa.Instruction, ps *pathState) (Event, bool) { return callEvents(p) }
+// certainlyNonNilError: a load of a package-level error variable initialised once, or the result of errors.New /
+// fmt.Errorf.
+func certainlyNonNilError(v ssa.Value) bool {
+	switch x := v.(type) {
+	case *ssa.UnOp:
+		if x.Op != token.MUL {
+			return false
+		}
+		g, ok := x.X.(*ssa.Global)
+		if !ok {
+			return false
+		}
+		n := g.Name()
+		return strings.HasPrefix(n, "Err") || strings.HasPrefix(n, "err")
+	case *ssa.Call:
+		if cal := x.Call.StaticCallee(); cal != nil {
+			return isLibFunc(cal, "errors", "New") || isLibFunc(cal, "fmt", "Errorf")
+		}
+	case *ssa.MakeInterface:
+		return true
+	}
+	return false
+}
+
+func CallEvents(p *Program) func(in ssa.Instruction, ps *pathState) (Event, bool) {
+	return callEvents(p)
+}
